@@ -119,3 +119,10 @@ package util
 
 // ---- C20: no queue method returns holding the lock
 //@ released [C20] Queue.lock
+
+// ---- C20: what may be concluded from the depth mailbox. getDepth reads the depth without the lock, so its answer can be
+// out of date once the caller holds the lock. With one producer (Enqueue only adds) and one consumer (Dequeue,
+// DequeueAll, Requeue), "not empty" read by the consumer stays true until the consumer itself takes something; "empty"
+// is stable for nobody. So: only the two dequeue methods may combine a reading with the lock, and they may only go on to
+// the lock when the reading was not zero; nothing else that takes the lock may consult the mailbox first.
+//@ unlocked [C20] (*Queue).getDepth by Queue.lock nonzero-for (*Queue).Dequeue, (*Queue).DequeueAll
